@@ -103,7 +103,7 @@ func coercerRuneMap(p *Program, fn *ssa.Function) (*runeMap, string) {
 			}
 			break
 		}
-		if c, ok := v.(*ssa.Convert); ok {
+		if c, ok := v.(*ssa.Convert); ok && !narrowingConversion(c) {
 			v = c.X
 		}
 		switch {
